@@ -70,4 +70,9 @@ example : PF_CMD_SKIP = PF_CMD_PREFIX.length := by decide
 example : PF_CMD_REPLIES = ["QUERY_PF_NAT_SUCCESS %s,%r\n", "QUERY_PF_NAT_FAILURE %s\n"] := by decide
 example : PF_QUERY_NAT_PARAMS = ["self", "family", "proto", "src_ip", "src_port", "dst_ip", "dst_port"] := by decide
 
+-- the helper's command loop writes nothing to the channel except through `firewall_command`:
+-- `sessStep (.host _)` produces no line (what `C05_pf_session_pairing` rests on)
+example : FW_MAIN_STDOUT_WRITES = ["('READY %s\\n' % method.name).encode('ASCII')", "b'STARTED\\n'"] := by decide
+example : FW_MAIN_LOOP_TESTS = ["line.startswith('HOST ')", "line"] := by decide
+
 end Sshuttle.Dst.Pins
